@@ -112,3 +112,47 @@ func (e *C16Fuzz) Run(ctx *core.Ctx, _ int) {
 	}
 	ctx.Violation("C16", "C16.no-panic", map[string]string{"kind": "fuzz-worker-crash"}, map[string]any{"found-by": "native fuzzing", "fuzz-input": input, "output": tail})
 }
+
+// C16Corpus engine (both tiers): replays the committed corpus of interesting inputs found by
+// earlier fuzzing runs (harness/fuzz/testdata/fuzz/FuzzC16, Go fuzz corpus file format) through
+// the same oracles, in process.
+type C16Corpus struct{}
+
+func (e *C16Corpus) Name() string { return "fn.c16-corpus" }
+func (e *C16Corpus) Rule() string {
+	return "every file of the committed fuzz corpus (inputs that reached new coverage in earlier fuzzing runs) decoded and judged like a fuzz input; non-trivial = distinct decoded specs"
+}
+func (e *C16Corpus) Cases(string, int64) int { return 1 }
+func (e *C16Corpus) Floors(string) map[string]int {
+	return map[string]int{"C16.corpus-inputs": 300}
+}
+
+func (e *C16Corpus) Run(ctx *core.Ctx, _ int) {
+	root := os.Getenv("VERIF_ROOT")
+	if root == "" {
+		ctx.Note("fn.c16-corpus: VERIF_ROOT not set")
+		return
+	}
+	files, _ := filepath.Glob(filepath.Join(root, "harness", "fuzz", "testdata", "fuzz", "FuzzC16", "*"))
+	for _, f := range files {
+		b, err := os.ReadFile(f)
+		if err != nil {
+			continue
+		}
+		lines := strings.Split(strings.TrimSpace(string(b)), "\n")
+		if len(lines) < 2 || !strings.HasPrefix(lines[1], "[]byte(") || !strings.HasSuffix(lines[1], ")") {
+			continue
+		}
+		data, err := strconv.Unquote(lines[1][len("[]byte(") : len(lines[1])-1])
+		if err != nil {
+			continue
+		}
+		ctx.Count("C16.corpus-inputs")
+		ctx.Count("evaluations")
+		spec, _ := C16FromBytes([]byte(data))
+		ctx.Distinct("nontrivial", fmt.Sprint(specDesc(spec)))
+		for _, v := range C16JudgeBytes([]byte(data)) {
+			ctx.Violation("C16", v.Rule, v.Attrs, map[string]any{"found-by": "corpus replay", "corpus-file": filepath.Base(f), "detail": v.Detail})
+		}
+	}
+}
